@@ -111,6 +111,10 @@ def expand(job):
             b = {kk: vv for kk, vv in b.items() if kk != "w"} if k in ("y", "mo") and "w" in b else b
             if "w" not in b:
                 b[k] = b.get(k, 0) + rnd.choice([1, -1])
+        elif x < 0.5 and ("y" in a or "mo" in a):
+            b = dict(a)
+            k = rnd.choice([kk for kk in ("y", "mo") if kk in a])
+            b[k] = -b[k]                      # same magnitudes, one nominal part of the other sign
         else:
             b = rand_dur(rnd, frac and rnd.random() < 0.5)
         yield {"mode": gen.spelling(rnd), "a": a, "b": b, "c": rand_dur(rnd), "n": rnd.randint(-6, 6)}
